@@ -263,8 +263,10 @@ def main():
             "extraction_crosscheck": {"evaluated_in_coq_by_vm_compute": vm["checked"], "agree_with_ocaml": vm["ok"],
                                       "differ": len(vm["bad"]), "not_expressible": vm["skipped"]},
             "translator": ctx.bld.translate_report.get("summary", {}) if ctx.bld else {},
-            "source_functions_translated": ctx.bld.translate_report.get("py2coq", {}).get("translated", []) if ctx.bld else [],
-            "source_functions_not_translated": ctx.bld.translate_report.get("py2coq", {}).get("untranslated", {}) if ctx.bld else {},
+            "source_functions_translated": (ctx.bld.translate_report.get("py2coq", {}).get("translated", [])
+                                            + ctx.bld.translate_report.get("py2coq_io", {}).get("translated", [])) if ctx.bld else [],
+            "source_functions_not_translated": dict(ctx.bld.translate_report.get("py2coq", {}).get("untranslated", {}),
+                                                    **ctx.bld.translate_report.get("py2coq_io", {}).get("untranslated", {})) if ctx.bld else {},
             "translator_template_mismatches": ctx.bld.translate_report.get("template_mismatches", []) if ctx.bld else [],
             "build_wall_s": round(ctx.bld.wall, 1) if ctx.bld else None,
             "notes": ctx.notes[:20],
